@@ -615,7 +615,8 @@ def run(tier, seed):
         # ... with a BURST on the other thread: between every two lines of one valid authentication, hundreds of complete calls for RP IDs / origins / keys never seen
         # before (more than any bounded cache holds: 300, or the largest count the changed source newly mentions plus 90) - evictions and clear()s then fall INTO the window
         from harness import srcdict as _sd2
-        burst = min(1300, max([300] + [t for t in _sd2.thresholds() if t <= 1200]) + 90)
+        # (three kinds of calls alternate - see below -, so the burst is three times the largest count the changed source mentions, plus a margin: each kind alone overflows it)
+        burst = 390 if not _sd2.thresholds() else min(4000, 3 * (max(t for t in _sd2.thresholds() if t <= 1200) + 90)) if any(t <= 1200 for t in _sd2.thresholds()) else 390
         s_b = authcat.Scn("ES256-P256"); s_b.challenge = b"burst-window-challenge"
         pol_b, a_b = s_b.build()
         rec_b = a_b.as_record()
@@ -625,7 +626,10 @@ def run(tier, seed):
         def burst_calls():
             for _ in range(burst):
                 tenant[0] += 1
-                p2 = impl.AuthPolicy(pol_b.challenge, f"tenant-{tenant[0]}.example", f"https://tenant-{tenant[0]}.example", pol_b.pubkey, pol_b.count, False)
+                # (one expectation is new per call, the others are A's: the call gets past the earlier checks and reaches the step that looks the new value up)
+                k3 = tenant[0] % 3
+                p2 = impl.AuthPolicy(pol_b.challenge if k3 != 2 else b"burst-%d" % tenant[0], f"tenant-{tenant[0]}.example" if k3 == 0 else pol_b.rp_id,
+                                     f"https://tenant-{tenant[0]}.example" if k3 == 1 else pol_b.origin, pol_b.pubkey, pol_b.count, False)
                 impl.verify_auth(p2, rec_b)
             return "burst"
         oa, obs, n = fw.interleaved(lambda: impl.verify_auth(pol_b, rec_b), burst_calls, max_events=120)
